@@ -168,12 +168,13 @@ def registry_script(sid, bindings, classes, edges, methods, defs, abstract=(), s
         s.defn(m, d, vp)
     s.update()
     for m, shape, vp in methods:
-        if "T" in observe:
-            s.table(m)
-        if "CT" in observe:
-            s.ctable(m)
-        if "X" in observe:
-            s.nexts(m)
+        for ob in observe:
+            if ob == "T":
+                s.table(m)
+            elif ob == "CT":
+                s.ctable(m)
+            elif ob == "X":
+                s.nexts(m)
     return s
 
 
